@@ -350,7 +350,20 @@ func runC17(c *Ctx) {
 				inner = cl
 			}
 		})
-		if inner == nil || (!helperInlined && paramIndex(allStale, inner.Call.Args[1]) != 3) || (helperInlined && !isPeriodField(inner.Call.Args[1])) {
+		// the helper's parameter that receives the period field at the call site is the one its age test uses
+		periodParam := -1
+		if !helperInlined {
+			allInstrs(isStaleM, func(in ssa.Instruction) {
+				if cl, ok := in.(*ssa.Call); ok && staticCallee(&cl.Call) == allStale {
+					for i, a := range cl.Call.Args {
+						if isPeriodField(a) {
+							periodParam = i
+						}
+					}
+				}
+			})
+		}
+		if inner == nil || (!helperInlined && (periodParam < 0 || paramIndex(allStale, inner.Call.Args[1]) != periodParam)) || (helperInlined && !isPeriodField(inner.Call.Args[1])) {
 			same = false
 		}
 		if helperInlined {
@@ -437,46 +450,7 @@ func runC17(c *Ctx) {
 		// S6: the reader looks at what the writer wrote. The path of every file whose age decides comes from the listing of
 		// the lock directory (or is the directory itself) — never from a name the observer computes from its own id:
 		// lockPath() trims the id, heartBeatFile() does not, so two lock objects for the same lock can name the file differently.
-		badPath := ""
-		for _, f := range []*ssa.Function{isStaleM, allStale} {
-			allInstrs(f, func(in ssa.Instruction) {
-				cl, ok := in.(*ssa.Call)
-				if !ok {
-					return
-				}
-				name, args, isFs := fsMethodCall(in)
-				if !isFs || !(name == "StatTimes" || name == "Stat" || name == "Lstat") || len(args) == 0 {
-					return
-				}
-				pth := args[len(args)-1]
-				if isLockPathValue(pth) {
-					return
-				}
-				fromListing, fromOwnName := false, false
-				for _, l := range sources(pth, deriveOpts{through: func(n string) bool { return n == "path/filepath.Join" || n == "path/filepath.Clean" }}) {
-					switch x := l.(type) {
-					case *ssa.Extract:
-						if lc, ok := x.Tuple.(*ssa.Call); ok {
-							if ln, _, ok := fsMethodCall(lc); ok && strings.HasPrefix(ln, "Ls") {
-								fromListing = true
-							}
-						}
-					case *ssa.Call:
-						if strings.HasSuffix(calleeFull(&x.Call), "RemoteLockFile).heartBeatFile") {
-							fromOwnName = true
-						}
-					case *ssa.Parameter:
-						// the helper's list parameter: filled from the listing at its call site (checked by same-period/all above)
-						if _, isSlice := x.Type().Underlying().(*types.Slice); isSlice {
-							fromListing = true
-						}
-					}
-				}
-				if fromOwnName || !fromListing {
-					badPath = c.ipos(cl)
-				}
-			})
-		}
+		badPath := c.c17JudgedPaths(isStaleM, allStale)
 		c.check(badPath == "", "S6", fname(isStaleM)+"/judges-what-is-there", c.pos(isStaleM.Pos()), "ages are read from the files listed in the lock directory (or the directory itself)",
 			"the age read at "+badPath+" is that of a path the observer computed itself (heartBeatFile of its own id) rather than of a file found in the lock directory: holder and observer whose ids differ by surrounding white space share the lock directory (lockPath trims the id) but name the heartbeat file differently, the observer falls back to the directory's age and reports a live lock stale")
 		c.c17AttemptStore()
@@ -859,4 +833,73 @@ func (c *Ctx) c17AttemptStore() {
 		"where the attempt failed its own store is not cancelled: if Lock succeeded just as the time ran out, the heart beat of a lock nobody holds keeps running — the lock is never stale and never released")
 	c.check(successHands, "S8", key+"/success-hands-over", c.ipos(run), "the attempt's store is registered in the lock's store on success",
 		"where the attempt succeeded its store is not handed to the lock's cancel store: Unlock() does not stop the heart beat, which goes on writing after the release")
+}
+
+// c17JudgedPaths: "" when every path whose age IsStale (and its helper) reads comes from a plain listing of the lock
+// directory or is the directory itself; otherwise the position (and reason) of the offending read. Shared by C17/S6 and C01/R7.
+func (c *Ctx) c17JudgedPaths(isStaleM, allStale *ssa.Function) string {
+	badPath := ""
+	for _, f := range []*ssa.Function{isStaleM, allStale} {
+		allInstrs(f, func(in ssa.Instruction) {
+			cl, ok := in.(*ssa.Call)
+			if !ok {
+				return
+			}
+			name, args, isFs := fsMethodCall(in)
+			if !isFs || !(name == "StatTimes" || name == "Stat" || name == "Lstat") || len(args) == 0 {
+				return
+			}
+			pth := args[len(args)-1]
+			if isLockPathValue(pth) {
+				return
+			}
+			fromListing, fromOwnName := false, false
+			notLiteral := ""
+			for _, l := range sources(pth, deriveOpts{through: func(n string) bool { return n == "path/filepath.Join" || n == "path/filepath.Clean" }}) {
+				switch x := l.(type) {
+				case *ssa.Extract:
+					if lc, ok := x.Tuple.(*ssa.Call); ok {
+						if ln, largs, ok := fsMethodCall(lc); ok && strings.HasPrefix(ln, "Ls") && len(largs) > 0 && isLockPathValue(largs[0]) {
+							fromListing = true
+						} else if ok {
+							notLiteral = ln
+						}
+					}
+				case *ssa.Call:
+					if strings.HasSuffix(calleeFull(&x.Call), "RemoteLockFile).heartBeatFile") {
+						fromOwnName = true
+					}
+				case *ssa.Parameter:
+					// the helper's list parameter: filled at its call site, where it must come from a literal listing (Ls…) of the lock path
+					if _, isSlice := x.Type().Underlying().(*types.Slice); isSlice {
+						pi := paramIndex(f, x)
+						allInstrs(isStaleM, func(j ssa.Instruction) {
+							jc, isCall := j.(*ssa.Call)
+							if !isCall || staticCallee(&jc.Call) != f || pi < 0 || pi >= len(jc.Call.Args) {
+								return
+							}
+							for _, ll := range sources(jc.Call.Args[pi], deriveOpts{}) {
+								if ex, isEx := ll.(*ssa.Extract); isEx {
+									if lc, isLC := ex.Tuple.(*ssa.Call); isLC {
+										if ln, largs, isL := fsMethodCall(lc); isL && strings.HasPrefix(ln, "Ls") && len(largs) > 0 && isLockPathValue(largs[0]) {
+											fromListing = true
+										} else if isL {
+											notLiteral = ln
+										}
+									}
+								}
+							}
+						})
+					}
+				}
+			}
+			if fromOwnName || !fromListing {
+				badPath = c.ipos(cl)
+				if notLiteral != "" {
+					badPath += " (the files judged come from " + notLiteral + ", not from a plain listing of the lock directory: a search by pattern reads the lock path — which contains the caller's id — as a pattern)"
+				}
+			}
+		})
+	}
+	return badPath
 }
